@@ -335,6 +335,8 @@ def _mkbox(t):
     if kind == 'TextBox':
         b = boxes.TextBox('x', st, el, 'x')
         b.text = '' if a.get('empty') else ' ' if a.get('space') else ' \n ' if a.get('wsonly') else 'x'
+        if 'text' in a:
+            b.text = a['text']
         return b
     return getattr(boxes, kind)('x', st, el, [_mkbox(k) for k in kids])
 
@@ -352,3 +354,50 @@ def fix_iib(case):
 def fix_bii(case):
     from weasyprint.formatting_structure import build
     return _tree(build.block_in_inline(_mkbox(case['tree'])))
+
+
+
+# ------------------------------------------------------------------ white space between table parts
+
+def _texts(b, out):
+    from weasyprint.formatting_structure import boxes
+    b = _unwrap(b)
+    if isinstance(b, boxes.TextBox):
+        out.append(b.text)
+        return
+    for c in (b.all_children() if hasattr(b, 'all_children') else ()):
+        _texts(c, out)
+
+
+def fix_atb_ws(case):
+    """anonymous_table_boxes on synthetic boxes whose text boxes carry given texts -> tree and the texts left"""
+    from weasyprint.formatting_structure import build
+    root = build.anonymous_table_boxes(_mkbox(case['tree']))
+    texts = []
+    _texts(root, texts)
+    return dict(tree=_tree(root), texts=texts)
+
+
+def table_ws_doc(case):
+    """case: dict(html, render) -> tree, table records and texts right after build_formatting_structure (and the
+    class tree + texts of the laid-out page when render is set)"""
+    from tests.testing_utils import _parse_base, render_pages
+    from weasyprint.formatting_structure import build
+    root = build.build_formatting_structure(*_parse_base(case['html']))
+    texts = []
+    _texts(root, texts)
+    out = dict(tree=_tree(root), tables=[_table_record(t) for t in _tables_of(root)], texts=texts)
+    if case.get('render'):
+        try:
+            pages = render_pages(case['html'])
+        except Exception as exc:      # noqa  (layout crashes are the business of the document streams)
+            if type(exc).__name__ == 'CaseTimeout':
+                raise
+            return out
+        ptexts = []
+        for p in pages:
+            _texts(p, ptexts)
+        out['post'] = dict(tables=[[[len(r.children) for r in g.children] for g in t.children]
+                                   for p in pages for t in _tables_of(p)],
+                           text=''.join(''.join(ptexts).split()))
+    return out
